@@ -231,7 +231,11 @@ def rule_D(toks, au):
                     init_txt = [t.text for t in init]
                     loggy = ("format" in init_txt and "!" in init_txt) or any(m in init_txt for m in SPAN_MACROS) \
                         or (name.startswith("_") and "enter" in init_txt)
-                    if loggy and not _uses(toks, name, (i, k + 1)):
+                    # a non-mut binding of a panic-free pure expression (identifiers, literals, len/is_empty/min/max calls) that
+                    # nothing reads: it only fed dropped log statements
+                    pure_unused = not is_id(toks[i + 1], "mut") and init_txt[:1] == ["="] and _pure_tokens(init[1:]) \
+                        and all(t.kind in ("id", "num") or t.text in (":", ",", "(", ")", ".", "&") for t in init[1:])
+                    if (loggy or pure_unused) and not _uses(toks, name, (i, k + 1)):
                         au.note("D", render(toks[i:k + 1]))
                         del toks[i:k + 1]
                         changed = True
@@ -242,7 +246,7 @@ def rule_D(toks, au):
     return toks
 
 
-PURE_COND_OK = {"len", "is_empty"}
+PURE_COND_OK = {"len", "is_empty", "min", "max"}
 
 
 def _pure_tokens(ts):
